@@ -1,6 +1,6 @@
 """C06 — serial and parallel traversal report the same entries."""
 from .. import cfg as C
-from ..flow import ExprBuilder, mentions_field, mentions_call, is_call, walk, show, seed_after_call, I, V, Sccp
+from ..flow import ExprBuilder, mentions_field, mentions_call, is_call, walk, show, seed_after_call, I, V, Sccp, cond_switches, guarded
 from ..graph import field_rw, field_rw_deep, CallGraph
 from ..facts import op_place, op_const
 
@@ -331,8 +331,9 @@ def run(ctx):
                   floor=3, kind="PASS") as r:
         prune_rule(ctx, r)
 
-    with ctx.rule("C06.LOOP", "followed directory symlinks are checked for loops; a loop is reported and not sent",
-                  floor=2, kind="GUARD/A3") as r:
+    with ctx.rule("C06.LOOP", "followed directory symlinks are checked for loops by file identity; a loop is reported and not sent",
+                  floor=4, kind="GUARD/A3") as r:
+        loop_identity_rule(ctx, r)
         csl = par.calls_to(W + "::check_symlink_loop")
         if not csl:
             r.bad("call", "generate_work never calls check_symlink_loop", fn=par)
@@ -347,13 +348,52 @@ def run(ctx):
                       fn=par, loc=c.loc)
             else:
                 r.ok("loop|%d" % i, "Err ⇒ visitor.visit(Err) and no send", fn=par)
-            # guarded by follow_links
+            # guarded by follow_links (see below)
             eb, sw = switch_exprs(par)
             gl = {bb for bb, e in sw if mentions_field(e, W + "::Worker", "follow_links")}
             if gl and not C.all_paths_pass(par, [0], gl, [c.bb]):
                 r.ok("guard|%d" % i, "loop check guarded by follow_links", fn=par)
             else:
                 r.bad("guard|%d" % i, "check_symlink_loop is not guarded by the follow_links option", fn=par, loc=c.loc)
+
+
+def loop_identity_rule(ctx, r):
+    """check_symlink_loop compares file identities (same_file::Handle: device + inode) of the followed link and of every
+    ancestor inside the search root — not path spellings, which differ for relative roots."""
+    facts = ctx.facts
+    f = facts.fn(W + "::check_symlink_loop")
+    eb = ExprBuilder(f)
+    HF = "same_file::Handle::from_path"
+    hs = f.calls_to(HF)
+    child = [c for c in hs if any(x.k == "arg" and x[2] == "child_path" for x in walk(eb.operand(c.args[0])))]
+    anc = [c for c in hs if mentions_call(eb.operand(c.args[0]), "ignore::dir::Ignore::path")]
+    eqs = cond_switches(f, lambda e: is_call(e, "core::cmp::PartialEq::eq") and
+                        any("Handle" in f.local_ty(y[1]) for y in walk(e) if y.k in ("phi", "local")) or
+                        (is_call(e, "core::cmp::PartialEq::eq") and mentions_call(e, HF)), eb)
+    if child and anc and eqs:
+        inloop = anc[0].bb in C.reach_after(f, anc[0].bb)
+        errs = [bb for bb, j, st in f.stmts() if st["k"] == "assign" and st["rv"]["k"] == "agg" and st["rv"].get("variant") == "Loop"]
+        if inloop and errs and not guarded(f, errs, eqs, True):
+            r.ok("identity", "Handle(child) compared with Handle(ancestor) for every ancestor; equal ⇒ Error::Loop", fn=f)
+        else:
+            r.bad("identity", "check_symlink_loop does not report Error::Loop exactly when the handles are equal, for every ancestor", fn=f,
+                  construct="loop")
+    else:
+        r.bad("identity", "check_symlink_loop no longer compares same_file handles of the link target and of each ancestor (child %d, "
+              "ancestor %d, comparisons %d): path spellings differ for relative roots, so cycles would go undetected"
+              % (len(child), len(anc), len(eqs)), fn=f, construct="loop")
+    tw = [c for c in f.calls() if c.path.endswith("Iterator::take_while")]
+    ps = f.calls_to("ignore::dir::Ignore::parents")
+    if ps and tw:
+        r.ok("ancestors", "ancestors = ig_parent.parents() up to the search root", fn=f)
+    else:
+        r.bad("ancestors", "check_symlink_loop no longer walks the ancestors inside the search root", fn=f, construct="loop")
+    # errors opening a handle are propagated
+    for i, c in enumerate(hs):
+        from ..graph import classify_result
+        v, d = classify_result(f, c)
+        if v not in ("try", "returned"):
+            r.bad("handle-error|%d" % i, "an error opening a file handle is %s" % v, fn=f, loc=c.loc)
 
 
 def prune_rule(ctx, r):
